@@ -8,7 +8,7 @@ ROOT_VERIFY = "tough::schema::verify::<impl tough::schema::Root>::verify_role"
 
 
 def run(chk, prog):
-    chk.rules_live = ["R1", "R2", "R3", "R4", "R5", "R6", "R7"]
+    chk.rules_live = ["R1", "R2", "R3", "R4", "R5", "R6", "R7", "R8"]
     chk.explanation = (
         "Must-pass-through / who-may-write rules over the MIR of tuftool::root: every subcommand that "
         "writes a root loaded from disk reaches write_file only through clear_sigs on that very root "
@@ -75,6 +75,8 @@ def run(chk, prog):
     from .c06 import SubCheck
     from . import c01
     c01.verifier(SubCheck(chk, "R7"), prog, c01.ROOT_VERIFY, "root")
+    # R8: `sign` attaches signatures of an algorithm Root::verify_role (Key::verify) checks with
+    c01.signer_verifier_agreement(chk, prog, "R8")
 
 
 def r2_effects(chk, prog):
